@@ -92,7 +92,9 @@ def pred(arg, out):
 
 def units(ctx: Ctx, only=None):
     cases = [] if getattr(ctx, "replay_only", False) else gen_cases(ctx)
-    return [Unit("tamper.sym", "e2e.unprotect", cases, e2e.impl_unprotect, prop_pred=pred, bucket=bucket)]
+    # sweep=False: under the symbolic crypto a flipped bit inside a serialised ciphertext term is the serialisation of another valid
+    # term, so "never another plaintext" is a property of the REAL primitives (oracle tamper.real), not of this world
+    return [Unit("tamper.sym", "e2e.unprotect", cases, e2e.impl_unprotect, prop_pred=pred, bucket=bucket, sweep=False)]
 
 
 def oracles(ctx: Ctx):
